@@ -28,15 +28,15 @@ def _sess(mon, what, bounds):
 
 CHECKS.update({
     "C01": _sess("Mon_C01", "message events = reference reassembly (spec/Reasm.tla) of the delivered frames, once, in order, byte-exact, payload stable after the yield",
-                 "Conforming-server automaton, all sequences of <= 3 frames after the handshake (thorough adds 30000 simulated behaviours of up to 8 frames, 4 per read), x 3 read segmentations; plus the payload-length grid (lengths 0,1,125,126,127,65535,65536,65537 x every length form incl. non-minimal x place in the message)."),
+                 "Conforming-server automaton, all sequences of <= 3 frames after the handshake (thorough adds 30000 simulated behaviours of up to 8 frames, 4 per read), x 3 read segmentations, every fifth also compressed by an RFC 7692 peer; an instance in which the application closes / sends / pings at Ready, Text, Ping or Binary while the server goes on; plus the payload-length grid (lengths 0,1,125,126,127,65535,65536,65537 x every length form incl. non-minimal x place in the message)."),
     "C04": _sess("Mon_C04", "first RFC 6455 violation found by the reference interpreter => prefix delivered, exactly one ProtocolError, nothing after, non-graceful Disconnected, at most one Close frame written",
-                 "45 violating frames over all classes of the statement among 4 valid frames, all sequences of <= 2 frames, a fragment-discipline alphabet 3 (quick) / 4 frames deep, violations while the closing handshake is in progress, x 3 read segmentations; random long scripts validated by TLC (TraceLomond); thorough adds deep simulation; plus the sweep of all 65536 two-byte headers (1 context quick / 6 contexts thorough) against the TLC-printed verdict table. Frames after the server's own Close frame are not judged (RFC leaves it open); frames written by application calls are the application's."),
+                 "45 violating frames over all classes of the statement among 4 valid frames, all sequences of <= 2 frames, a fragment-discipline alphabet 3 (quick) / 4 frames deep, invalid UTF-8 inside fragmented text (empty / non-empty first fragment, non-final continuations), violations while the closing handshake is in progress, x 3 read segmentations; random long scripts validated by TLC (TraceLomond); thorough adds deep simulation; plus the sweep of all 65536 two-byte headers (1 context quick / 6 contexts thorough) against the TLC-printed verdict table. Frames after the server's own Close frame are not judged (RFC leaves it open); frames written by application calls are the application's."),
     "C08": _sess("Mon_C08", "closing-handshake clauses of the statement in both directions",
-                 "<= 3 server frames (incl. a Close with a 123-byte reason), <= 2 application reactions (send/close) at any event incl. Connecting/Connected/Closing/Closed; fault-free transport; random long scripts validated by TLC; thorough adds deep simulation (6 frames, 4 reactions)."),
+                 "<= 3 server frames (incl. a Close with a 123-byte reason, a fragmented text message), <= 2 application reactions (send / close / a close() refused for its 124-byte reason) at any event incl. Connecting/Connected/Closing/Closed; disabled time-outs spelled None and 0; every ninth behaviour also from an RFC 7692 peer; fault-free transport; random long scripts validated by TLC; thorough adds deep simulation (6 frames, 4 reactions)."),
     "C09": _sess("Mon_C09", "no escape, no hang, ConnectFail iff before Connected, non-graceful unless a closing handshake had started, all addresses tried, sockets closed, only WebSocketError from sends",
-                 "fault choice at every interaction point of the bounded model; terminal fault moved to every byte offset for a subset of base streams (6 quick / 40 thorough); random long scripts with faults validated by TLC. A failed selector keeps failing; a socket handed to the session must be closed (not merely unreachable)."),
+                 "fault choice at every interaction point of the bounded model; terminal fault moved to every byte offset for a subset of base streams (6 quick / 40 thorough); random long scripts with faults validated by TLC. A failed selector keeps failing; a socket handed to the session must be closed (not merely unreachable), also when shutdown() fails with ENOTCONN or an arbitrary exception; sendall raising a non-socket error; socket() itself failing for the first address."),
     "C13": _sess("Mon_C13", "after abandonment every socket and selector is closed",
-                 "abandonment at every event index of every bounded behaviour (incl. housekeeping events under timers and after a failed application write) x 4 mechanisms; selector closure observed through a logging subclass of lomond's selector class."),
+                 "abandonment at every event index of every bounded behaviour (incl. housekeeping events under timers and after a failed application write) x 4 mechanisms; with shutdown() failing (ENOTCONN); with the write lock held by a sender at the moment of abandonment; with the abandoned iterator kept alive across a second connect() on the same object; selector closure observed through a logging subclass of lomond's selector class."),
     "C15": _sess("Mon_C15", "poll spacing in [p, 2p], automatic pings per period, Unresponsive iff silence > t (noticed within p), forced disconnect in [tc+c, tc+c+p], never with 0/None",
                  "parameter grid of 8 (quick) / 48 (thorough) (poll, ping_rate, ping_timeout, close_timeout) combinations x all histories of <= 4-5 time-outs and <= 2 arrivals on an integer tick grid, application close at Ready or any Poll (up to 4 repeated closes in two extra instances), permanent silence, and every arrival also trickling in one byte per tick; closes issued before Ready are outside the stated scope."),
     "C05": {"technique": _T % "Mon_C05" + "; the UTF-8 automaton of spec/Utf8.tla is checked by TLC against Table 3-7 and its complete transition table is bound to the real validator row by row",
@@ -58,7 +58,7 @@ CHECKS.update({
                           "masking is an involution with key byte i mod 4, close payload round trip) and prints the API table (method x argument class -> frame/reject); every row is "
                           "executed on a Ready connection of the real code (compression negotiated or not, several masking keys), what was handed to sendall is decoded by an independent "
                           "server-side decoder (and inflated by an independent zlib peer), and Mon_C03 (TLC) judges each call.",
-            "level_note": _NOTE + "481 table rows x 2 (quick) / 4 masking keys; payload lengths at the 125/126, 65535/65536 boundaries. close() with a wrong-typed code is outside the statement's classes."},
+            "level_note": _NOTE + "481 table rows x 2 (quick) / 4 masking keys; compressible rows repeated under client_no_context_takeover against a peer that inflates every message afresh; payload lengths at the 125/126, 65535/65536 boundaries. close() with a wrong-typed code is outside the statement's classes."},
     "C10": {"technique": "explicit TLA+ handshake specification (spec/Handshake.tla: abstract reply classes -> verdict; URL -> Host/target) and case generator (spec/GenC10.tla) evaluated by TLC; every case replayed into the real code in several RFC 7230-equivalent spellings and segmentations; traces judged by the TLA+ monitor Mon_C10 evaluated by TLC",
             "level_text": "The specification defines the verdict (Ready / Rejected / ProtocolError) for every abstract reply class and the request a URL/option set must produce; TLC enumerates "
                           "all classes; the harness concretises each into equivalent spellings, computes the RFC 6455 digest from the key parsed out of the request actually written, runs two "
@@ -70,17 +70,17 @@ CHECKS.update({
                           "handshake byte precedes a complete 200 answer; each behaviour is replayed against the real _connect/_connect_proxy code with the mapping spelled with missing / None / "
                           "empty entries; Mon_C19 (TLC) checks proxy selection by scheme, the CONNECT target, write ordering relative to the completed answer, same socket, Connected.proxy, "
                           "ConnectFail with zero handshake bytes otherwise.",
-            "level_note": _NOTE + "Proxy-Authorization formatting and closing of sockets on proxy failure paths are not part of C19."},
+            "level_note": _NOTE + "Proxy-Authorization formatting and closing of sockets on proxy failure paths are not part of C19. Mappings are given explicitly (with a decoy proxy in the environment), via HTTP_PROXY / HTTPS_PROXY, and with another thread sending while the loop waits for the proxy."},
     "C16": {"technique": "explicit TLA+ model of persist() (spec/Persist.tla) checked by TLC (DelayInBounds, UpperLimitDoubles, OnlyExitEndsIt); every behaviour replayed into the real persist()/connect(); traces judged by the TLA+ monitor Mon_C16 evaluated by TLC",
             "level_text": "TLC enumerates all sequences of attempt outcomes x wait settings x random draws x exit position of the persist model and checks the back-off invariants on it; each behaviour is "
                           "replayed through the real persist() on top of the real connect() in the simulated world (scripted random(), scripted exit event, connect() wrapped on the instance to log its keyword "
                           "arguments); Mon_C16 (TLC) checks one BackOff per ended attempt, pass-through of the inner events, exact rational delay = min + u*min(max-min, 2^k), bounds, reset after Ready, "
                           "termination only by the exit event, and the keyword arguments handed to connect().",
-            "level_note": _NOTE + "<= 3 (quick) / 4 attempts; dyadic draws so that float arithmetic is exact."},
+            "level_note": _NOTE + "<= 3 (quick) / 4 attempts; dyadic draws (incl. 0) so that float arithmetic is exact; min_wait = max_wait = 0 included; every fifth history also with the exit event left to persist(); the unbounded statement (any number of consecutive failures, any 0 <= min <= max, any draw) is discharged as an Apalache inductive invariant of spec/PersistInd.tla with three negative controls."},
     "C17": {"technique": "TLA+ case generator (spec/GenC17.tla: endings x continuations over the frame alphabet of the session model) evaluated by TLC; each pair run on one object and on a fresh object; pairs of traces judged by the TLA+ monitor Mon_C17 evaluated by TLC",
             "level_text": "TLC enumerates all pairs (history with abnormal ending, next history); the harness runs history 1 then history 2 on the same WebSocket object (connect() twice, and through persist()) and "
                           "history 2 on a fresh object; Mon_C17 (TLC) demands identical observables (events with payloads, decoded writes, call results) for the later connection and pairwise distinct handshake keys.",
-            "level_note": _NOTE + "19 endings x 8 continuations x 2 modes; time frozen; compression offered by every object so that compression contexts can leak if they are not reset."},
+            "level_note": _NOTE + "22 endings (incl. close()/send called at the terminal event of a failed, rejected or dropped attempt) x 9 continuations x 2 modes; time frozen; compression offered by every object so that compression contexts can leak if they are not reset."},
     "C18": {"technique": "explicit TLA+ transport model (spec/Transport.tla: kernel buffer, TLS record layer, pending() short-cut, the wait/recv loop) checked by TLC (NoStall, Drained; and the stall is found when the short-cut is removed) and, for unbounded parameters, by an Apalache inductive invariant (spec/TransportInd.tla); every behaviour replayed into the real loop; traces judged by the TLA+ monitor Mon_C18 evaluated by TLC",
             "level_text": "TLC checks on the transport model that the loop never blocks while bytes that have arrived are unconsumed, for plain and TLS transports, all record sizes / short-read caps / burst "
                           "patterns within the bound, and confirms the model can express the defect (NoStall fails without the pending() short-cut); each behaviour is replayed through the real "
@@ -93,7 +93,7 @@ CHECKS.update({
                           "compressed/uncompressed, fragmentation); the harness runs each history under all 8x8x2x2 negotiated configurations (several spellings of the extension header), concretising "
                           "blocks so that repeats lie just inside every window in play; an independent zlib endpoint honouring the parameters over the whole history compresses the server's messages and "
                           "inflates the client's frames in wire order; Mon_C06 (TLC) checks exact restoration both ways, never wrong content, RSV1 only with negotiation and compress=True.",
-            "level_note": _NOTE + "Bit-level DEFLATE is outside TLA+: decided by the zlib peer (trusted). 4 (quick) / 12 histories per configuration."},
+            "level_note": _NOTE + "Bit-level DEFLATE is outside TLA+: decided by the zlib peer (trusted). 6 (quick) / 14 histories per configuration, five hand-written ones always (repeats across messages, empty messages, the two directions alternating); Ping / Pong between the fragments of compressed messages."},
     "C11": {"technique": "explicit TLA+ model of the send path at shared-access granularity (spec/Threads.tla) checked by TLC over all interleavings (repaired variant satisfies the invariants, as-found variant violates them); on the code side a deterministic line-granular scheduler enumerates all schedules of real threads up to a pre-emption bound; each recorded execution judged by the TLA+ monitor Mon_C11 evaluated by TLC",
             "level_text": "TLC explores every interleaving of the Threads.tla model (write lock, compress lock, closing flag, two-step sendall) for three thread programs. Because a model's schedules cannot reveal a missing "
                           "lock in the code, schedules are explored on the code: real threads running the real send path under sys.settrace, one at a time, with hand-over possible at every source line inside lomond/, at "
